@@ -146,6 +146,17 @@ def judge(case, m):
         blank(pool[int(rng.integers(0, len(pool)))], np.arange(2, n))
     if case.get("cancelled") and case["cancelled"] not in used:
         blank(case["cancelled"], rng.choice(n, size=max(1, n // 3), replace=False))
+    if pat == "infinities":
+        # +inf and -inf are values, not missing ones - also when both occur in one row
+        floats = [c for c in numeric_used if str(df[c].dtype) == "float64"]
+        if len(floats) >= 2:
+            r = int(rng.integers(0, n))
+            df.loc[df.index[r], floats[0]] = np.inf
+            df.loc[df.index[r], floats[1]] = -np.inf
+        elif floats:
+            rows2 = rng.choice(n, size=min(n, 2), replace=False)
+            df.loc[df.index[rows2[0]], floats[0]] = np.inf
+            df.loc[df.index[rows2[-1]], floats[0]] = -np.inf
     if pat == "only-unused":
         for col in [c for c in df.columns if c not in used and meta.get(c, {}).get("kind") in ("num", "pos", "str")][:3]:
             blank(col, rng.choice(n, size=max(1, n // 2), replace=False))
@@ -208,6 +219,12 @@ def judge(case, m):
         if d:
             m.violation("drop-equals-complete-rows", f"{int((~complete).sum())} incomplete rows in {used}: {d}", case=case,
                         key="drop:" + d.split(":")[0])
+        # counted independently of any second run of the library: one row per complete row
+        rows_kept = np.asarray((dm.common if dm.common is not None else dm.group).design_matrix).shape[0] \
+            if (dm.common is not None or dm.group is not None) else None
+        if rows_kept is not None and rows_kept != int(complete.sum()):
+            m.violation("drop-equals-complete-rows", f"{int(complete.sum())} rows are complete in {used} (pattern {pat}) but the design has "
+                        f"{rows_kept} rows", case=case, key="drop:row-count")
         return
     if policy == "error":
         m.ev("error-iff-incomplete")
@@ -368,7 +385,7 @@ def judge_sequence(case, m):
 def run_shard(i, n, tier, seed, m):
     rng = random.Random(seed * 1000003 + i * 29 + 9)
     ncases = (2400 if tier == "quick" else 30000) // n
-    patterns = ["none", "one-cell", "one-cell", "several", "several", "column-but-two", "only-unused"]
+    patterns = ["none", "one-cell", "one-cell", "several", "several", "column-but-two", "only-unused", "infinities"]
     for k in range(ncases):
         profile = "plain" if k % 3 != 2 else "stateful"
         case = D.random_case(rng, profile=profile, hostile=(k % 5 == 0), group_p=0.4, min_rows=4)
